@@ -295,6 +295,129 @@ Proof.
       * specialize (Hpost y Hy). lra.
 Qed.
 End Furthest.
+
+(* ---- the default tag, pauses of any length (zero included): the last state at that time that is not a STOP_END state
+        answers, and a STOP_END state shares the beat of the STOP state directly in front of it ---- *)
+Section FurthestAll.
+
+Lemma last_ok_split {T} (ok : T -> bool) : forall l a, ok a = true ->
+  exists run1 x run2, a :: l = run1 ++ x :: run2 /\ ok x = true /\ forall y, In y run2 -> ok y = false.
+Proof.
+  induction l as [|z l' IH] using rev_ind; intros a Ha.
+  - exists [], a, []. repeat split; [exact Ha|intros y []].
+  - destruct (IH a Ha) as (run1 & x & run2 & Eq & Hx & H2). destruct (ok z) eqn:Z.
+    + exists (a :: l'), z, []. repeat split; [exact Z|intros y []].
+    + exists run1, x, (run2 ++ [z]). split; [|split; [exact Hx|]].
+      * change (a :: l' ++ [z]) with ((a :: l') ++ [z]). rewrite Eq, <- app_assoc. reflexivity.
+      * intros y Hy. apply in_app_or in Hy as [Hy|[<-|[]]]; [apply H2; exact Hy|exact Z].
+Qed.
+
+Lemma In_fold_run_states : forall L st N N'', L = N ++ N'' -> In (fold_left advance N st) (run_states st L).
+Proof.
+  intros L st N. revert L st. induction N as [|a N IH]; intros L st N'' ->; cbn [app fold_left].
+  - destruct N''; left; reflexivity.
+  - cbn [run_states]. right. apply (IH _ _ N''). reflexivity.
+Qed.
+
+Lemma state_tag_le y : In y (tl (run_states sWs R)) -> (s_tag y <= tSTOP_END)%Z.
+Proof.
+  intro Hin. destruct (In_tl_run_states R sWs y Hin) as (N & N' & ER & Hne & ->).
+  destruct (last_of_nonempty N Hne) as (N0 & z & ->). rewrite fold_left_app. cbn [fold_left advance s_tag].
+  assert (Hz : In z es) by (rewrite E, ER; apply in_or_app; right; right; apply in_or_app; left; apply in_or_app; right; left; reflexivity).
+  destruct (tag_cases td b0 v0 rest Hbpm z Hz) as [X|[X|[X|[X|[X|[X|X]]]]]]; rewrite X; unfold tWARP, tWARP_END, tBPM, tDELAY, tDELAY_END, tSTOP, tSTOP_END; lia.
+Qed.
+
+(* a STOP_END state among those reached at the time of the WARP state: the state in front of it is its STOP state, on the same beat,
+   also reached at that time *)
+Lemma stop_end_pred y : In y (tl (run_states sWs R)) -> s_tag y = tSTOP_END -> s_time y == Tws ->
+  exists y', In y' (sWs :: tl (run_states sWs R)) /\ s_tag y' = tSTOP /\ s_beat y' == s_beat y /\ s_time y' == Tws.
+Proof.
+  intros Hy Ht Hty. destruct (In_tl_run_states R sWs y Hy) as (N & N' & ER & Hne & ->).
+  destruct (last_of_nonempty N Hne) as (N0 & z & ->).
+  rewrite fold_left_app in Ht, Hty |- *. cbn [fold_left advance s_tag] in Ht.
+  set (P2 := P ++ mkW s :: N0).
+  assert (E2 : es = P2 ++ z :: N') by (unfold P2; rewrite E, ER; repeat rewrite <- app_assoc; reflexivity).
+  assert (Ef : fold_left advance N0 sWs = St' P2) by (unfold sWs, P2, St; rewrite <- fold_left_app, <- app_assoc; reflexivity).
+  assert (Hend : is_end_tag (e_tag z) = true) by (unfold is_end_tag; rewrite Ht; reflexivity).
+  destruct (end_pairs td b0 v0 rest D Hbpm P2 z N' E2 Hend) as (P' & q & EP & Hq & Hbq & Hv & Hqt).
+  exists (St' P2). split; [|split; [|split]].
+  - rewrite <- Ef. change (sWs :: tl (run_states sWs R)) with (sWs :: tl (run_states sWs R)).
+    assert (Hr : run_states sWs R = sWs :: tl (run_states sWs R)) by (destruct R; reflexivity). rewrite <- Hr.
+    apply (In_fold_run_states R sWs N0 ([z] ++ N')). rewrite ER, <- app_assoc. reflexivity.
+  - rewrite EP, St_last. cbn [advance s_tag]. rewrite Hq, Ht. reflexivity.
+  - cbn [fold_left]. rewrite Ef. cbn [advance s_beat]. rewrite EP, St_last. cbn [advance s_beat]. rewrite Hbq. reflexivity.
+  - assert (Hsb : s_beat (St' P2) = e_beat z) by (rewrite EP, St_last; cbn [advance s_beat]; exact Hbq).
+    assert (Hge : Tws <= s_time (St' P2)) by (apply (state_ge N0 ([z] ++ N')); rewrite ER, <- app_assoc; reflexivity).
+    cbn [fold_left] in Hty. rewrite Ef in Hty. replace (advance (St' P2) z) with (St' (P2 ++ [z])) in Hty by (rewrite St_last; reflexivity).
+    rewrite (step_time td b0 v0 rest D Hbpm P2 z N' E2), Hend, Hsb in Hty.
+    assert (Hz : In z es) by (rewrite E2; apply in_or_app; right; left; reflexivity).
+    assert (Hv0 : 0 <= e_val z).
+    { assert (H : In z (tagged tSTOP_END (td_stops td))) by (apply (in_tagged_of_tag td b0 v0 rest Hbpm z tSTOP_END _ Hz Ht); tauto).
+      apply tagged_In' in H as (r & Hr & ->). cbn [mkev e_val]. pose proof (dom_stop_pos td D) as F. rewrite Forall_forall in F. apply F. exact Hr. }
+    setoid_replace ((e_beat z - e_beat z) * state_rate (St' P2)) with 0 in Hty by ring. lra.
+Qed.
+
+Theorem warp_default_furthest_all d :
+  exists x, In x (sts td v0) /\ s_time x == Tws /\ fst (beat_at_raw (sts td v0) d Tws tSTOP) == s_beat x /\
+            (forall y, In y (sts td v0) -> s_time y == Tws -> s_beat y <= s_beat x).
+Proof.
+  pose proof sorted_all as S. rewrite sts_split3 in S.
+  assert (Stail : times_sorted (sWs :: tl (run_states sWs R))) by (apply SS_app_inv in S as (_ & B & _); exact B).
+  apply StronglySorted_inv in Stail as [Stl Hall]. rewrite Forall_forall in Hall.
+  destruct (split_run (tl (run_states sWs R)) Tws Stl) as (run & post & Etl & Hrun & Hpost); [intros x Hx; apply Hall; exact Hx|].
+  set (ok := fun y : state => (s_tag y <=? tSTOP)%Z).
+  assert (Hok0 : ok sWs = true) by (unfold ok, sWs; rewrite St_last; cbn [advance s_tag mkW e_tag]; reflexivity).
+  destruct (last_ok_split ok run sWs Hok0) as (run1 & x & run2 & EL & Hxok & H2).
+  assert (HLt : forall y, In y (sWs :: run) -> s_time y == Tws) by (intros y [<-|Hy]; [reflexivity|apply Hrun; exact Hy]).
+  assert (Hxin : In x (sWs :: run)) by (rewrite EL; apply in_or_app; right; left; reflexivity).
+  assert (Hxtag : (s_tag x <= tSTOP)%Z) by (unfold ok in Hxok; apply Z.leb_le in Hxok; exact Hxok).
+  assert (H2tag : forall y, In y run2 -> (tSTOP < s_tag y)%Z) by (intros y Hy; specialize (H2 y Hy); unfold ok in H2; apply Z.leb_gt in H2; exact H2).
+  pose proof sts_beats_sorted as SB.
+  assert (Esplit : sts td v0 = run_states s0 P ++ (run1 ++ x :: run2) ++ post) by (rewrite sts_split3, Etl, <- EL; cbn [app]; reflexivity).
+  exists x.
+  split; [rewrite Esplit; apply in_or_app; right; apply in_or_app; left; apply in_or_app; right; left; reflexivity|].
+  split; [apply HLt; exact Hxin|].
+  (* beats of the states in front of x, and x itself *)
+  assert (Hfront : forall y, In y (run1 ++ [x]) -> s_beat y <= s_beat x).
+  { intros y Hy. apply in_app_or in Hy as [Hy|[<-|[]]]; [|lra].
+    rewrite Esplit in SB. apply SS_app_inv in SB as (_ & B & _). apply SS_app_inv in B as (B1 & _ & _). apply SS_app_inv in B1 as (_ & _ & C).
+    apply (C y x Hy). left. reflexivity. }
+  split.
+  - rewrite Esplit. destruct pre_cases as [Hpre|[EP T0]].
+    + apply (beat_at_on_state_time (run_states s0 P) run1 x run2 post d Tws tSTOP).
+      * exact Hpre.
+      * intros y Hy. apply HLt. rewrite EL. exact Hy.
+      * exact Hpost.
+      * exact Hxtag.
+      * exact H2tag.
+    + rewrite EP. cbn [run_states].
+      replace ([s0] ++ (run1 ++ x :: run2) ++ post) with ([] ++ (([s0] ++ run1) ++ x :: run2) ++ post) by (cbn [app]; rewrite <- app_assoc; reflexivity).
+      apply (beat_at_on_state_time [] ([s0] ++ run1) x run2 post d Tws tSTOP).
+      * intros y [].
+      * intros y Hy. rewrite <- app_assoc in Hy. cbn [app] in Hy. destruct Hy as [<-|Hy]; [exact T0|]. apply HLt. rewrite EL. exact Hy.
+      * exact Hpost.
+      * exact Hxtag.
+      * exact H2tag.
+  - intros y Hy Hty. rewrite Esplit in Hy.
+    apply in_app_or in Hy as [Hy|Hy].
+    + rewrite Esplit in SB. apply SS_app_inv in SB as (_ & _ & C). apply (C y x Hy). apply in_or_app. left. apply in_or_app. right. left. reflexivity.
+    + apply in_app_or in Hy as [Hy|Hy]; [|specialize (Hpost y Hy); lra].
+      apply in_app_or in Hy as [Hy|[<-|Hy]]; [apply Hfront; apply in_or_app; left; exact Hy|lra|].
+      (* a state behind x at that time: a STOP_END state; the STOP state in front of it is in front of x or x itself *)
+      assert (Hyin : In y (tl (run_states sWs R))).
+      { assert (Hyf : In y (sWs :: run)) by (rewrite EL; apply in_or_app; right; right; exact Hy).
+        destruct Hyf as [<-|Hyr]; [|rewrite Etl; apply in_or_app; left; exact Hyr].
+        exfalso. specialize (H2 _ Hy). congruence. }
+      assert (Hyt : s_tag y = tSTOP_END) by (pose proof (state_tag_le y Hyin); specialize (H2tag y Hy); unfold tSTOP, tSTOP_END in *; lia).
+      destruct (stop_end_pred y Hyin Hyt Hty) as (y' & Hy' & Ty' & By' & Tt').
+      rewrite <- By'. apply Hfront.
+      assert (Hy'f : In y' (sWs :: run)).
+      { destruct Hy' as [<-|Hy']; [left; reflexivity|]. rewrite Etl in Hy'. apply in_app_or in Hy' as [X|X]; [right; exact X|].
+        specialize (Hpost y' X). lra. }
+      rewrite EL in Hy'f. apply in_app_or in Hy'f as [X|[X|X]]; [apply in_or_app; left; exact X|apply in_or_app; right; left; exact X|].
+      exfalso. specialize (H2tag y' X). rewrite Ty' in H2tag. lia.
+Qed.
+End FurthestAll.
 End One.
 End Start.
 
@@ -350,9 +473,8 @@ Proof.
   apply (warp_tag_start td b0 v0 rest D Hbpm Hb0 segs Hsp HW HWE HinW HinWE s e P R Hseg E d).
 Qed.
 
-(* ... and the default tag: the furthest beat reached at that time, when stops and delays have positive lengths *)
+(* ... and the default tag: the furthest beat reached at that time (pauses of any length, zero included) *)
 Theorem warp_default_furthest_td td b0 v0 rest : dom td -> td_bpms td = (b0, v0) :: rest -> b0 == 0 ->
-  (forall r, In r (td_stops td) \/ In r (td_delays td) -> 0 < snd r) ->
   exists segs : list (Q * Q),
     (forall x, in_raw (td_warps td) x <-> exists s e, In (s, e) segs /\ s <= x /\ x < e) /\
     forall s e d, In (s, e) segs ->
@@ -360,11 +482,11 @@ Theorem warp_default_furthest_td td b0 v0 rest : dom td -> td_bpms td = (b0, v0)
       exists x, In x (sts td v0) /\ s_time x == T /\ fst (beat_at_raw (sts td v0) d T tSTOP) == s_beat x /\
                 (forall y, In y (sts td v0) -> s_time y == T -> s_beat y <= s_beat x).
 Proof.
-  intros D Hbpm Hb0 Hpos. destruct (warp_segments td D) as (segs & Hsp & HW & HWE & HinW & HinWE & Hraw).
+  intros D Hbpm Hb0. destruct (warp_segments td D) as (segs & Hsp & HW & HWE & HinW & HinWE & Hraw).
   exists segs. split; [exact Hraw|]. intros s e d Hseg. cbv zeta.
   pose proof (HinW s e Hseg) as Hin. apply in_split in Hin as (P & R & E).
   pose proof (time_at_warp_start td b0 v0 rest D Hbpm Hb0 segs Hsp HW HWE HinW HinWE s e P R Hseg E) as ET.
-  destruct (warp_default_furthest td b0 v0 rest D Hbpm Hb0 segs Hsp HW HWE HinW HinWE s e P R Hseg E Hpos d) as (x & Hx & Tx & Ax & Fx).
+  destruct (warp_default_furthest_all td b0 v0 rest D Hbpm Hb0 segs Hsp HW HWE HinW HinWE s e P R Hseg E d) as (x & Hx & Tx & Ax & Fx).
   exists x. split; [exact Hx|]. split; [rewrite ET; exact Tx|]. split.
   - rewrite (beat_at_raw_compat _ _ _ _ tSTOP ET). exact Ax.
   - intros y Hy Hty. apply (Fx y Hy). rewrite <- ET. exact Hty.
